@@ -121,7 +121,7 @@ def byte_mutations(rng, data, n):
 EXTREMES = [0, 1, 2, 127, 128, 255, 256, 65535, 65536, 2 ** 24, 2 ** 32 - 1, 2 ** 32, 2 ** 40, 2 ** 63 - 1, 2 ** 63, 2 ** 64 - 1]
 
 
-def structural_mutations(rng, data, n):
+def structural_mutations(rng, data, n, force=None):
     """Parse the raw header with py7zr's own classes, set one field to an extreme, re-serialise, re-seal."""
     import py7zr.archiveinfo as ai
     payload, hdr = split_archive(data)
@@ -136,7 +136,7 @@ def structural_mutations(rng, data, n):
         v = rng.choice(EXTREMES)
         s = h.main_streams
         fi = h.files_info
-        what = rng.randrange(14)
+        what = rng.randrange(14) if force is None else force
         try:
             if what == 0 and s:
                 s.packinfo.packsizes[rng.randrange(len(s.packinfo.packsizes))] = v
@@ -251,10 +251,11 @@ def run(ctx):
     bases = base_archives(rng, ctx.thorough)
     jobs, labels = [], []
 
-    def add(label, data, pw):
-        seq = [rng.choice(OPS) for _ in range(rng.randrange(1, 5))]
+    def add(label, data, pw, seq=None):
+        rnd = [rng.choice(OPS) for _ in range(rng.randrange(1, 5))]
         if rng.random() < 0.2:
-            seq = ["extractall", "extractall"]      # extract twice without reset
+            rnd = ["extractall", "extractall"]      # extract twice without reset
+        seq = seq or rnd
         jobs.append((data, seq, pw))
         labels.append(label)
 
@@ -269,6 +270,10 @@ def run(ctx):
             add(nm + ":" + lab, m, pw)
         for lab, m in raw_count_mutations(rng, data):
             add(nm + ":" + lab, m, pw)
+        # the coordinated size mutations always meet a decoding call
+        for force in (12, 13):
+            for lab, m in structural_mutations(rng, data, 3, force=force):
+                add(nm + ":" + lab, m, pw, seq=[rng.choice(["extractall", "testzip", "test"]), "extractall"])
     for lab, m in external_mutations(bases[1][1]):
         add("Copy:" + lab, m, None)
     # degenerate inputs
